@@ -28,7 +28,7 @@ claimed = {
          "Termination bound and consistency clauses are decided for every header and every scripted archive; delivery of exactly size bytes on truncated input is not decided."),
  "C16": ("other", AI + " of CheckDebsig on scripted member maps (roles, decoys, both library verdicts) over every map iteration order, with Seek, io.MultiReader and CheckDetachedSignature as recording oracles; the loader interpreted on the same scenarios", "3.C16",
          "The wrapper obligations that turn the OpenPGP library's guarantee into the property are decided on the scenario family; the library is trusted."),
- "C19": ("other", AI + " of OrderDSCForBuild on exact source descriptions with a recording oracle for the topological sorter (every AddEdge/Sort outcome enumerated); struct-tag and map-order rules", "3.C19",
+ "C19": ("other", AI + " of OrderDSCForBuild on exact source descriptions, once with a recording oracle for the topological sorter (every AddEdge/Sort outcome enumerated) and once end to end with the sorter interpreted (returned order checked against the dependency edges; cycle); struct-tag, map-order and package-state rules", "3.C19",
          "Edges per build-dependency field (with C06 selection semantics interpreted, not mocked), edge direction, node-before-edge order, error propagation and result construction are decided; the sorter itself is trusted."),
  "C20": ("other", AI + " of the six upload methods and internal.Copy with every filesystem call replaced by an effect-recording oracle forking into success and failure", "3.C20",
          "Order of effects (control file last), failure propagation, destination paths, handle update, containment of listed names and cleanup after a failed copy are decided on every path of the oracle tree; real filesystem behaviour is not."),
